@@ -95,12 +95,20 @@ func (this *sharedGroup) processNodesSnapshot(data []byte) error {
 	if err := proto.Unmarshal(data, &nodes); err != nil {
 		return err
 	}
+	members := make(map[uint64]struct{})
 	for idStr, address := range nodes.GetProxySnapshots() {
 		id, err := strconv.ParseUint(idStr, 10, 64)
 		if err != nil {
 			return err
 		}
+		members[id] = struct{}{}
 		this.group.transport.addNodeAddress(id, string(address))
+	}
+	// Nodes whose removal is covered by the snapshot
+	for id, _ := range this.group.transport.clusterConn.Nodes() {
+		if _, exists := members[id]; !exists && id != this.group.transport.nodeId {
+			this.group.transport.removeNodeAddress(id)
+		}
 	}
 	return nil
 }
